@@ -54,8 +54,7 @@ ASSUMPTIONS = [
 TOOLS = ("ncvalidator", "cdfdiff", "ncmpidiff", "ncmpidump", "ncoffsets", "ncmpigen")
 
 # ---------------------------------------------------------------------------------------------------------------
-# Named exclusions: confirmed findings on the pinned tree (replays in /verif/replays/C20/<name>.json run WITHOUT them).
-# The campaign skips exactly the unit/generator class named here and counts it as excluded_<name>.
+# exclusion machinery (helpers of the match functions)
 def _target(unit):
     d = unit.get("derived") or None
     return bytes.fromhex(d["hex"] if d else unit["base"]["hex"])
@@ -109,7 +108,14 @@ def _ext_fill(unit):
     return False
 
 
-EXCLUSIONS = {
+# Named exclusions: confirmed findings that are NOT fixed in /repo; the campaign skips exactly the unit / generator class named
+# here and counts it as excluded_<name>; the saved replay under /verif/replays/C20 runs WITHOUT exclusions.
+EXCLUSIONS = {}
+
+# Findings confirmed by this check on the pinned tree and since FIXED in /repo (patches prepared in work/c20/fixes/NN-*.diff): their
+# exclusions are retired, i.e. the campaign exercises these classes again and the replays in /verif/replays/C20 guard the fixes.  To run
+# the campaign on a tree that lacks one of the fixes: C20_EXTRA_EXCLUSIONS=name[,name...] (or move the entry back up).
+RETIRED_EXCLUSIONS = {
     # F-A ncmpidump.c pr_att(): every numeric attribute is fetched with ncmpi_get_att_double and cast back in pr_att_vals():
     #     NC_INT64 / NC_UINT64 attribute values beyond 2^53 are printed wrong (18446744073709551614 as 0ULL).
     #     replay: replays/C20/dump-int64-att-via-double.json
@@ -156,6 +162,11 @@ EXCLUSIONS = {
     "ncoffsets_tag0_list": {"what": "ncoffsets refuses files whose empty list is encoded as (tag, 0)",
                             "match": lambda u, i, fb: u["tool"] == "ncoffsets" and _has_tag0(u, i, fb)},
 }
+for _n in [x for x in os.environ.get("C20_EXTRA_EXCLUSIONS", "").split(",") if x]:
+    if _n == "all":
+        EXCLUSIONS.update(RETIRED_EXCLUSIONS)
+    elif _n in RETIRED_EXCLUSIONS:
+        EXCLUSIONS[_n] = RETIRED_EXCLUSIONS[_n]
 ACTIVE = set()
 
 
@@ -1752,7 +1763,8 @@ def main():
     cov = {"evaluations": evaluations, "distinct_nontrivial": len(nt), "rule": RULE, "samples": samples[:4],
            "classes": dict(sorted(stats.items())), "per_tool_per_kind": per_tool, "tool_launches": dict(launches), "tool_seconds": {k: round(v, 1) for k, v in seconds.items()}, "slowest_launch_s_k": slowest,
            "excluded_known": excluded_known, "exclusions_active": active,
-           "exclusions": {k: v["what"] for k, v in EXCLUSIONS.items()}, "validator_classes_asserted": CLAIMED,
+           "exclusions": {k: v["what"] for k, v in EXCLUSIONS.items()}, "retired_exclusions": sorted(RETIRED_EXCLUSIONS),
+           "validator_classes_asserted": CLAIMED,
            "regression_replays": nreg, "workers": nw, "groups_per_worker": ng, "build": {k: os.path.basename(v) for k, v in builds.items()},
            "inconclusive_failures": flaky, "notes": notes[:20]}
     runner.write_evidence(PROP, a.tier, a.seed, "exploration", cov, ASSUMPTIONS, wall, len(violations))
